@@ -118,6 +118,7 @@ func verdict(spec gens.JPExpr, data any, got []string, ordered bool) (ok, open b
 		if vi == 0 {
 			exp = want
 		}
+		ordered := ordered && !r.MapOrder
 		if sameSeq(got, want) || (!ordered && sameMulti(got, want)) {
 			return true, false, want, ""
 		}
@@ -314,7 +315,7 @@ func localise(spec gens.JPExpr, data any) (coords, position string) {
 	for j := 1; j < len(spec); j++ { // spec[0] is root
 		pre := spec[:j+1]
 		got, pv, _ := safeGet(pre.Build(), data)
-		ordered := !hasDescent(pre) && !gens.HasMultiKeyMap(data)
+		ordered := !hasDescent(pre)
 		if pv == nil {
 			if ok, _, _, _ := verdict(pre, data, canonList(got), ordered); ok {
 				continue
@@ -392,8 +393,11 @@ func judge(c *core.Ctx, spec gens.JPExpr, data any, raw func() any) {
 		}
 		return
 	}
-	ordered := !hasDescent(spec) && !gens.HasMultiKeyMap(data)
+	// the order of the result is defined unless the path descends or walks the
+	// members of an object with two or more members (Go map order)
+	ordered := !hasDescent(spec)
 	ok, open, exp, kind := verdict(spec, data, gl, ordered)
+	ordered = ordered && !pathref.SelectSpec(spec, data, pathref.Variants[0]).MapOrder
 	if open {
 		c.Add("open_filter_verdict_skipped", 1)
 		return
